@@ -16,7 +16,9 @@ CONCLUSIVE_FLOOR = {"quick": 60, "thorough": 150}
 CHOL_BUILDERS = ["DensePD", "Diag", "ConstantDiag", "Identity", "CholLower", "CholUpper", "AddedDiag", "AddedConstDiag", "LowRankRootAddedDiag",
                  "PsdSum", "ConstantMulPos", "BatchRepeatPD", "KroneckerPD", "KroneckerDiag", "BlockDiag", "BlockInterleaved", "SumKronecker",
                  "KroneckerAddedConstDiag", "KroneckerAddedDiag", "KroneckerAddedKronDiag", "Root", "LowRankRoot"]
-EIG_BUILDERS = ["DenseEig", "KroneckerEig", "KroneckerAddedConstDiagEig", "KroneckerAddedKronDiagEig", "DiagBounded", "ConstantDiagBounded", "Identity"]
+EIG_BUILDERS = ["DenseEig", "KroneckerEig", "KroneckerAddedConstDiagEig", "KroneckerAddedKronDiagEig", "KroneckerAddedKronConstDiagEig",
+                "DiagBounded", "ConstantDiagBounded", "Identity"]
+OVERRIDE_BUILDERS = ["KroneckerAddedConstDiagEig", "KroneckerAddedKronDiagEig", "KroneckerAddedKronConstDiagEig"]
 
 GROUPS_CHOL = ["cholesky", "root_cholesky", "root_inv_cholesky", "root_default"]
 GROUPS_EIG = ["eigh", "root_symeig", "root_inv_symeig", "diagonalization"]
@@ -33,6 +35,9 @@ def cells(tier, seed):
     for name in EIG_BUILDERS:
         for g in GROUPS_EIG:
             out.append({"id": f"{name}/b-/{g}", "params": {"builder": name, "n": 2, "batch": [], "group": g}})
+    for name in OVERRIDE_BUILDERS:
+        for g in ("override_root_then_inv", "override_inv_then_root"):
+            out.append({"id": f"{name}/b-/{g}", "params": {"builder": name, "n": 2, "batch": [], "group": g}})
     for name in ("DensePD", "Diag", "AddedDiag", "DenseEig"):
         out.append({"id": f"{name}/b-/lanczos_root", "params": {"builder": name, "n": 2, "batch": [], "group": "lanczos_root"}})
     return out
@@ -47,7 +52,9 @@ def describe(tier):
     return {
         "bounds": {"n": 2, "kronecker/block size": 4, "groups": GROUPS_CHOL + GROUPS_EIG + ["lanczos_root"]},
         "outside": ["svd / pivoted_cholesky / pinverse roots on symbolic matrices without a registered decomposition",
-                    "Lanczos roots beyond n = 2", "tolerance clauses"],
+                    "Lanczos roots beyond n = 2", "tolerance clauses",
+                    "class-specific roots entered through the default method above max_cholesky_size: the inner Kronecker diagonalization is then "
+                    "itself Lanczos-based (approximate, jittered); the same overrides are decided through method='lanczos', where it is exact"],
         "assumptions": ["eigh stub: returns the (w, Q) the harness built A from (ascending w, rotation Q) when the input is provably that A",
                         "Cholesky stub as in C04", "lanczos: tridiagonal_jitter(0), max_iter = n, generic-case cut beta > 1e-6"],
     }
@@ -116,6 +123,29 @@ def harness(ctx):
         def chk():
             w, Q = op.diagonalization(method="symeig")
             check_eigh(ctx, w, Q, ref, "diagonalization(symeig)")
+        attempt(ctx, g, chk)
+        return
+    if g.startswith("override_"):
+        # class-specific roots taken on the Lanczos path (method="lanczos", or the default method above max_cholesky_size);
+        # several factorizations of one object share the memoised diagonalization of the inner Kronecker operator
+        inner = getattr(op, "linear_op", None)
+        def after(tag):
+            if inner is not None:
+                w, Q = inner.diagonalization()
+                check_eigh(ctx, w, Q, ref - dense(op.diag_tensor), f"inner Kronecker diagonalization {tag}")
+            w, Q = op.diagonalization()
+            check_eigh(ctx, w, Q, ref, f"diagonalization() {tag}")
+        def chk():
+            if g == "override_root_then_inv":
+                check_root(ctx, op.root_decomposition(method="lanczos").root, ref, "root_decomposition(lanczos) [class override]")
+                check_root_inv(ctx, op.root_inv_decomposition(method="lanczos").root, ref, "root_inv_decomposition(lanczos) after root")
+                after("after roots")
+            elif g == "override_inv_then_root":
+                check_root_inv(ctx, op.root_inv_decomposition(method="lanczos").root, ref, "root_inv_decomposition(lanczos) [class override]")
+                check_root(ctx, op.root_decomposition(method="lanczos").root, ref, "root_decomposition(lanczos) after inverse root")
+                after("after roots")
+            else:
+                raise ValueError(g)
         attempt(ctx, g, chk)
         return
     if g == "lanczos_root":
